@@ -97,6 +97,12 @@ def shapes(tier):
     # a subscription placed while the block that touches it is being processed
     out.append({'initial': INITIAL, 'deviations': d1,
                 'script': [(('when', 'bp:advance_block', 1), ('sub', 0, 'A')), ('block', payA), ('block', cbB)]})
+    # a reorg un-confirms the parent of a mempool transaction: the child's status flips to
+    # "has unconfirmed inputs" although nothing touches its script hash
+    # (the parent touches only script A, the subscriber watches B, which only the child pays)
+    out.append({'initial': [cbA, cbA, cbA, cbA], 'deviations': d1,
+                'script': [('sub', 0, 'B'), ('mp_add', 'm1', 1, 'A'), ('block', cbC, ['m1']),
+                           ('mp_add', 'm2', 1, 'B', ['m1']), ('reorg', 1, [cbC, cbC])]})
     if tier == 'thorough':
         for s in list(out):
             out.append(dict(s, deviations=2, window=10))
